@@ -745,6 +745,63 @@ func ruleR142(c *Ctx) {
 				if !ok {
 					return true
 				}
+				// a helper of the package that forwards to Calc of the operator it is given: calcBool(less, st, a, b)
+				if hcal := Callee(info, cc); hcal != nil && hcal.Pkg() != nil {
+					if hp := c.Pkgs[hcal.Pkg().Path()]; hp != nil && hp.TypesInfo == info {
+						if hd := findFuncDecl(hp, hcal); hd != nil && hd.Body != nil && hd.Recv == nil && hd.Type.Params != nil {
+							var hps []types.Object
+							for _, fl := range hd.Type.Params.List {
+								for _, nm := range fl.Names {
+									hps = append(hps, info.Defs[nm])
+								}
+							}
+							idxOf := func(e ast.Expr) int {
+								if id, ok := ast.Unparen(e).(*ast.Ident); ok {
+									for i, hpo := range hps {
+										if info.ObjectOf(id) == hpo {
+											return i
+										}
+									}
+								}
+								return -1
+							}
+							var inner *ast.CallExpr
+							nInner := 0
+							ast.Inspect(hd.Body, func(z ast.Node) bool {
+								ic, ok := z.(*ast.CallExpr)
+								if !ok || len(ic.Args) != 3 {
+									return true
+								}
+								if is, ok := ast.Unparen(ic.Fun).(*ast.SelectorExpr); ok && is.Sel.Name == "Calc" && idxOf(is.X) >= 0 {
+									inner = ic
+									nInner++
+								}
+								return true
+							})
+							if nInner == 1 && len(hps) == len(cc.Args) {
+								ri := idxOf(ast.Unparen(inner.Fun).(*ast.SelectorExpr).X)
+								xi, yi := idxOf(inner.Args[1]), idxOf(inner.Args[2])
+								if ri >= 0 && xi >= 0 && yi >= 0 {
+									if rid, ok := ast.Unparen(cc.Args[ri]).(*ast.Ident); ok {
+										role := roleOf[info.ObjectOf(rid)]
+										if role == "" {
+											role = localRole[info.ObjectOf(rid)]
+										}
+										if role == "" {
+											role = "other(" + rid.Name + ")"
+										}
+										order := "?"
+										if o := resolve(cc.Args[xi]) + resolve(cc.Args[yi]); o == "ab" || o == "ba" {
+											order = o
+										}
+										calls = append(calls, callInfo{role, order, cc})
+										return true
+									}
+								}
+							}
+						}
+					}
+				}
 				s2, ok := ast.Unparen(cc.Fun).(*ast.SelectorExpr)
 				if !ok || s2.Sel.Name != "Calc" || len(cc.Args) != 3 {
 					return true
@@ -900,6 +957,36 @@ func ruleR144(c *Ctx) {
 				cc, ok := y.(*ast.CallExpr)
 				if !ok {
 					return false
+				}
+				// a helper of the package that is handed the operator object and calls Calc of that parameter
+				if hcal := Callee(info, cc); hcal != nil && hcal.Pkg() == vp.Types {
+					if hd := findFuncDecl(vp, hcal); hd != nil && hd.Body != nil && hd.Type.Params != nil {
+						pi := 0
+						for _, fl := range hd.Type.Params.List {
+							for _, nm := range fl.Names {
+								if pi < len(cc.Args) {
+									if aid, ok := ast.Unparen(cc.Args[pi]).(*ast.Ident); ok && info.ObjectOf(aid) == ret {
+										pobj := info.Defs[nm]
+										if containsNodeDeep(hd.Body, func(z ast.Node) bool {
+											ic, ok := z.(*ast.CallExpr)
+											if !ok {
+												return false
+											}
+											is, ok := ast.Unparen(ic.Fun).(*ast.SelectorExpr)
+											if !ok || is.Sel.Name != "Calc" {
+												return false
+											}
+											iid, ok := ast.Unparen(is.X).(*ast.Ident)
+											return ok && info.ObjectOf(iid) == pobj
+										}) {
+											return true
+										}
+									}
+								}
+								pi++
+							}
+						}
+					}
 				}
 				s2, ok := ast.Unparen(cc.Fun).(*ast.SelectorExpr)
 				if !ok || s2.Sel.Name != "Calc" {
